@@ -293,13 +293,15 @@ def takeLastBufferOp (count : Int) : Op α (List α) where
   onError := passErr
   onCompleted := fun q => emit q [.next q, .completed]
 
-/-- `_elementatordefault.py`; state `index_`; `dflt = none` is `has_default=False`. -/
+/-- `_elementatordefault.py`; state `index_` (set to `-1` once the element was found, *before* it is
+emitted, so that a re-entered or late `on_next` does nothing); `dflt = none` is `has_default=False`. -/
 def elementAtOrDefaultOp (index : Nat) (dflt : Option α) : Op α α where
-  σ := Nat
-  init := index
+  σ := Int
+  init := (index : Int)
   onNext := fun index_ x =>
-    if index_ ≠ 0 then emit (index_ - 1) []
-    else emit index_ [.next x, .completed]
+    if index_ > 0 then emit (index_ - 1) []
+    else if index_ = 0 then emit (-1) [.next x, .completed]
+    else emit index_ []
   onError := passErr
   onCompleted := fun index_ =>
     match dflt with
@@ -309,17 +311,20 @@ def elementAtOrDefaultOp (index : Nat) (dflt : Option α) : Op α α where
 def elementAt? (index : Int) (dflt : Option α) : Except Err (Op α α) :=
   if index < 0 then .error aoor else .ok (elementAtOrDefaultOp index.toNat dflt)
 
-/-- `_find.py: find_value_`; state `index`.  `yes x i` is `index if yield_index else x`,
+/-- `_find.py: find_value_`; state `(index, found)` (`found` is set *before* the result is emitted, so that
+a re-entered or late `on_next` returns at once).  `yes x i` is `index if yield_index else x`,
 `no` is `-1 if yield_index else None`. -/
 def findValueOp (p : α → Nat → Except Err Bool) (yes : α → Nat → β) (no : β) : Op α β where
-  σ := Nat
-  init := 0
-  onNext := fun index x =>
-    match p x index with
-    | .error e => emit index [.error e]
-    | .ok r => if r then emit index [.next (yes x index), .completed] else emit (index + 1) []
+  σ := Nat × Bool
+  init := (0, false)
+  onNext := fun s x =>
+    if s.2 then emit s []
+    else
+      match p x s.1 with
+      | .error e => emit s [.error e]
+      | .ok r => if r then emit (s.1, true) [.next (yes x s.1), .completed] else emit (s.1 + 1, false) []
   onError := passErr
-  onCompleted := fun index => emit index [.next no, .completed]
+  onCompleted := fun s => emit s [.next no, .completed]
 
 def findOp (p : α → Nat → Except Err Bool) : Op α (Option α) := findValueOp p (fun x _ => some x) none
 def findIndexOp (p : α → Nat → Except Err Bool) : Op α Int := findValueOp p (fun _ i => (i : Int)) (-1)
